@@ -270,7 +270,7 @@ impl BuilderArea {
                     }
                 }
             }
-            _ => return None,
+            _ => return self.serde_step(ws, cx),
         };
         Some(ans)
     }
